@@ -367,27 +367,40 @@ func protocol() {
 					out = "ok " + strings.Join(l, ",")
 				}
 			}
-		case len(f) == 5 && f[0] == "abitypes":
-			// abitypes <n types> <seed> <reflect-usage mask, -1 = unfiltered> <repetitions>: compile the same generated program
-			// <repetitions> times in this process and ask for the entry module's type list as genMainModule does
+		case len(f) == 6 && f[0] == "abitypes":
+			// abitypes <n types> <seed> <reflect-usage mask, -1 = unfiltered> <repetitions> <shape bits: 1 map, 2 chan, 4 func>:
+			// compile the same generated program <repetitions> times in this process and ask for the entry module's type list
+			// as genMainModule does
 			nT, e1 := strconv.Atoi(f[1])
 			seed, e2 := strconv.Atoi(f[2])
 			mask, e3 := strconv.Atoi(f[3])
 			reps, e4 := strconv.Atoi(f[4])
-			if e1 != nil || e2 != nil || e3 != nil || e4 != nil || reps < 2 {
+			shapes, e5 := strconv.Atoi(f[5])
+			if e1 != nil || e2 != nil || e3 != nil || e4 != nil || e5 != nil || reps < 2 {
 				break
 			}
-			out = abiTypes(nT, seed, mask, reps)
-		case len(f) == 4 && f[0] == "meta":
-			// meta <needRt 0|1> <needPyInit 0|1> <link args list>: saveToCache then tryLoadFromCache, print what comes back
+			out = abiTypes(nT, seed, mask, reps, shapes)
+		case (len(f) == 4 || len(f) == 5) && f[0] == "meta":
+			// meta <needRt 0|1> <needPyInit 0|1> <link args list> [<archive bytes, hex>]: saveToCache then tryLoadFromCache,
+			// print what comes back (and the sha256 of the archive file the second build would link)
 			args, err := unlist(f[3])
 			if err != nil {
 				break
 			}
+			content := "!<arch>\n"
+			if len(f) == 5 {
+				if content, err = unhex(f[4]); err != nil {
+					break
+				}
+			}
 			ar := filepath.Join(root, "pkg.a")
-			os.WriteFile(ar, []byte("!<arch>\n"), 0o644)
+			os.WriteFile(ar, []byte(content), 0o644)
 			croot := filepath.Join(root, "cache-"+strconv.Itoa(n))
-			hit, rt, py, got, err := build.VerifMetaRoundTrip(croot, f[1] == "1", f[2] == "1", args, ar)
+			hit, rt, py, got, gotAr, err := build.VerifMetaRoundTrip(croot, f[1] == "1", f[2] == "1", args, ar)
+			arsum := "~"
+			if b, e := os.ReadFile(gotAr); e == nil && gotAr != "" {
+				arsum = sha(string(b))
+			}
 			os.RemoveAll(croot)
 			if err != nil {
 				out = "err " + err.Error()
@@ -402,6 +415,9 @@ func protocol() {
 				ls = strings.Join(l, ",")
 			}
 			out = fmt.Sprintf("ok hit=%v %s %s %s", hit, map[bool]string{true: "1", false: "0"}[rt], map[bool]string{true: "1", false: "0"}[py], ls)
+			if len(f) == 5 {
+				out += " " + arsum
+			}
 		case len(f) >= 3 && f[0] == "key":
 			out = handleKey(root, n, f[1:])
 		}
@@ -411,7 +427,7 @@ func protocol() {
 
 var rtPkg *types.Package
 
-func abiTypes(n, seed, mask, reps int) (res string) {
+func abiTypes(n, seed, mask, reps, shapes int) (res string) {
 	defer func() {
 		if r := recover(); r != nil {
 			res = fmt.Sprintf("err panic: %v", r)
@@ -429,29 +445,52 @@ func abiTypes(n, seed, mask, reps int) (res string) {
 	if mask >= 0 {
 		filter = func(sym *llssa.AbiSymbol) bool { return build.VerifFilterAbiSymbol(mask, sym) }
 	}
+	// the descriptors listed by the entry module, in emission order (LLVM prints plain names bare, others quoted)
+	nameRe := regexp.MustCompile(`ptr @(?:"([^"]+)"|([-a-zA-Z$._0-9]+))`)
 	order := func(ir string) string {
 		for _, line := range strings.Split(ir, "\n") {
 			if strings.HasPrefix(line, `@"init$abitypes$array" =`) {
 				var names []string
-				for _, m := range regexp.MustCompile(`ptr @"([^"]+)"`).FindAllStringSubmatch(line, -1) {
-					names = append(names, vhex(m[1]))
+				for _, m := range nameRe.FindAllStringSubmatch(line[len(`@"init$abitypes$array" =`):], -1) {
+					names = append(names, vhex(m[1]+m[2]))
+				}
+				if len(names) == 0 {
+					return "."
 				}
 				return strings.Join(names, ",")
 			}
 		}
 		return "."
 	}
-	first, firstUser, selected := llssa.VerifEntryModule(rtPkg, n, seed, filter)
+	// the symbol table as one `range` delivered it + the filter's verdict: the input of the Lean model abiTypeNames
+	symList := func(syms []llssa.VerifSym) (string, int) {
+		sel := 0
+		l := make([]string, len(syms))
+		for i, s := range syms {
+			b := "0"
+			if s.Selected {
+				b = "1"
+				sel++
+			}
+			l[i] = vhex(s.Name) + ":" + b
+		}
+		if len(l) == 0 {
+			return ".", 0
+		}
+		return strings.Join(l, ","), sel
+	}
+	first, firstUser, syms := llssa.VerifEntryModule(rtPkg, n, seed, shapes, filter)
+	sl, selected := symList(syms)
 	for i := 2; i <= reps; i++ {
-		again, againUser, _ := llssa.VerifEntryModule(rtPkg, n, seed, filter)
+		again, againUser, _ := llssa.VerifEntryModule(rtPkg, n, seed, shapes, filter)
 		if again != first {
-			return fmt.Sprintf("differs entry build=%d selected=%d %s %s", i, selected, order(first), order(again))
+			return fmt.Sprintf("differs entry build=%d selected=%d %s %s syms=%s", i, selected, order(first), order(again), sl)
 		}
 		if againUser != firstUser {
-			return fmt.Sprintf("differs user build=%d selected=%d . .", i, selected)
+			return fmt.Sprintf("differs user build=%d selected=%d . . syms=%s", i, selected, sl)
 		}
 	}
-	return fmt.Sprintf("ok selected=%d entry=%d user=%d sha=%s", selected, len(first), len(firstUser), sha(first + firstUser)[:16])
+	return fmt.Sprintf("ok selected=%d entry=%d user=%d sha=%s order=%s syms=%s", selected, len(first), len(firstUser), sha(first + firstUser)[:16], order(first), sl)
 }
 
 type xflags []string
